@@ -15,6 +15,7 @@ import random
 import numpy as np
 from .runner import Component
 from . import gridsim as G
+from . import pubapi
 
 HD = G.HD
 KINDS = {0: "all", 1: "turn"}
@@ -118,7 +119,9 @@ def build(inp):
         attack_mapping={k: set(v) for k, v in mapping}, stacked_attacks=bool(stacked),
         observe_self=bool(obs_self))
     # SmartGridWorldSimulation keeps its components in Python sets: give them a fixed order
-    for attr in ("_states", "_observers", "_dones"):
+    for attr in [pubapi.component_attr(sim, k) for k in ("states", "observers", "dones")]:
+        if attr is None:
+            continue
         setattr(sim, attr, sorted(getattr(sim, attr), key=lambda c: type(c).__name__, reverse=True))
     mgr = (AllStepManager(sim, randomize_action_input=bool(randomize)) if kind == 0
            else TurnBasedManager(sim))
